@@ -129,7 +129,7 @@ def sessions_for(tier, rng):
 
 def blackhole_scenario(args):
     """agent level: A's packets to B are black-holed for the whole session (B's still reach A, so B's checks trigger new
-    transactions on A's pairs).  On every black-holed pair: no transaction is sent more than N times, a transaction that
+    transactions on A's pairs: those later transactions get the full schedule too).  On every black-holed pair: no transaction is sent more than N times, a transaction that
     has been superseded by a newer one on the same pair is never transmitted again, and the last transaction of a pair
     that had time to run out was transmitted exactly N times."""
     exe, seed, tier = args
@@ -164,8 +164,15 @@ def blackhole_scenario(args):
         if not one_way:
             s.op("net blackout B A 0 99999999")
         steps = sc.signalling_steps(rng, cfg)
-        sc.deliver_signalling(s, rng, steps)
         total = cfg["rto"] * (2 ** (N - 1) - 1) + cfg["rto"] * (2 ** (N - 2) if N > 1 else 1)
+        if one_way and rng.random() < 0.5:
+            # B learns about A late: A's own checks have all run out (pairs FAILED) when B's first checks arrive, so every
+            # transaction they trigger is a LATER transaction on a pair whose first one has ended
+            rcv = lambda x: x.split()[3] if x.startswith("creds") else x.split()[4]
+            sc.deliver_signalling(s, rng, [x for x in steps if rcv(x) == "A"])
+            s.op(f"run {2 * total + 3000}")
+            steps = [x for x in steps if rcv(x) == "B"]
+        sc.deliver_signalling(s, rng, steps)
         s.op(f"run {20 * total + 30000}")
         t_end = int(s.op("stats")[1].split()[1].split("=")[1])
         pairs = {}
@@ -192,6 +199,9 @@ def blackhole_scenario(args):
             if t_end - first[last] > 2 * total + 2000 and count[last] != N and one_way is False:
                 bad.append(("not-exactly-N", f"pair {pr[0]}->{pr[1]}: the last transaction {last[:12]}.. on a fully black-holed pair was "
                                              f"transmitted {count[last]} times, configured {N}"))
+            if one_way and t_end - first[last] > 2 * total + 2000 and count[last] != N:
+                bad.append(("later-transaction-cut-short", f"pair {pr[0]}->{pr[1]}: transaction {last[:12]}.. (number {len(order)} on this pair, started by "
+                                                           f"an inbound check from B) was transmitted {count[last]} times, configured {N}"))
             if bad:
                 break
         if two_streams and not bad:
